@@ -236,8 +236,8 @@ def compare(w, api, other, label):
             if "FloatingPointError" not in other["stderr"] and "floating" not in other["stderr"].lower() and \
                     not (other.get("exc") is not None and isinstance(getattr(other["exc"], "__cause__", None), FloatingPointError)):
                 out.append(_v("cli_fails_api_succeeds", f"{label} exits {other['status']} ({other['stderr'].strip()[-160:]}) but the API calls succeed", w, label))
-        elif et and et not in other["stderr"]:
-            out.append(_v("error_not_named", f"{label} failed without naming {et}: {other['stderr'].strip()[-160:]}", w, f"{label}/{et}"))
+        # both fail: the CLI may fail earlier than the API (floating-point trapping while loading), so
+        # only "non-zero status and a message" is required, not the same exception type.
     if et in ("PrepareDumpError", "FileFormatError") or (et == "LoadError" and not w.get("many")):
         # pre-flight rejection: an existing output file stays untouched (and none is created)
         if other["bytes"] != pre or other.get("opened_w"):
@@ -282,6 +282,13 @@ def gen_workload(rng, tier):
     if w["outfmt"] is None and rng.random() < 0.25:
         om = c07.natural_fmt(outn)
         w["outfmt"] = om if om and rng.random() < 0.85 else rng.choice(["nosuchformat", "gromacs", "xyz"])
+    if rng.random() < 0.15:
+        # names that select nothing: -o (and -i) carry the format
+        om = c07.natural_fmt(outn)
+        if om:
+            w["output_name"], w["outfmt"] = rng.choice(["result.txt", "out", "o.dat2"]), om
+        if rng.random() < 0.5:
+            w["input_name"], w["infmt"] = rng.choice(["input.txt", "in"]), w["infmt"] or mod
     if rng.random() < 0.05:
         w["input_name"] = rng.choice(["in.unknown", "in.xyz", "in.fchk"])
     r = rng.random()
